@@ -131,6 +131,34 @@ def correspond(ctx):
         ok = ok and all(abs(a - (-2 * dt * g)) < 1e-15 for _, a in rx) and all(abs(a - (-2 * dt * J)) < 1e-15 for _, a in rzz)
         if not ok:
             ctx.mismatch("create_ising_circuit gate list vs CircuitLib", {"L": L, "periodic": periodic}, (rx, rzz, others), (mf, mb))
+    # Heisenberg circuit gate list: the same bond pattern for rzz, rxx, ryy, a field rotation on every site
+    from mqt.yaqs.core.libraries.circuit_library import create_heisenberg_circuit
+
+    hc, he, hi = [], [], []
+    for L in range(1, 8 if ctx.quick else 13):
+        for periodic in (False, True):
+            jx, jy, jz, hf, dt = 0.8, 0.5, 0.3, 0.4, 0.1
+            qc = create_heisenberg_circuit(L, jx, jy, jz, hf, dt, 1, periodic=periodic)
+            ops = []
+            for ci in qc.data:
+                nm = ci.operation.name
+                if nm == "barrier":
+                    continue
+                qs = [qc.find_bit(q).index for q in ci.qubits]
+                ops.append((nm, (qs[0], qs[-1]), float(ci.operation.params[0]) if ci.operation.params else None))
+            hi.append(ops)
+            he.append(f"heis_step {L}%nat {'true' if periodic else 'false'}")
+            hc.append((L, periodic))
+    hv = common.coq_eval_sharded(HEADER, he, tag="c07h")
+    want_angle = {"rz": -2 * 0.1 * 0.4, "rzz": -2 * 0.1 * 0.3, "rxx": -2 * 0.1 * 0.8, "ryy": -2 * 0.1 * 0.5}
+    names = {"HRz": "rz", "HRzz": "rzz", "HRxx": "rxx", "HRyy": "ryy"}
+    for (L, periodic), ops, mv in zip(hc, hi, hv):
+        model = [(names[x[0][0]], (x[1][0], x[1][1])) for x in mv]
+        ctx.case(nontrivial_key=("heis-circuit", L, periodic) if L > 2 else None, validated=True)
+        ctx.count("heisenberg_circuits")
+        ok = [(n_, pr) for n_, pr, _ in ops] == model and all(n_ in want_angle and abs(a_ - want_angle[n_]) < 1e-15 for n_, _, a_ in ops)
+        if not ok:
+            ctx.mismatch("create_heisenberg_circuit gate list vs CircuitLib.heis_step", {"L": L, "periodic": periodic}, ops, model, key="heis-gates")
     hamiltonian_correspondence(ctx)
     bose_correspondence(ctx)
     transmon_correspondence(ctx)
